@@ -186,6 +186,9 @@ def run(pid, tier, seed, a, t0):
 
     # ------------------------------------------------------------- 4. bounded stand-ins
     bounded = []
+    # a stand-in that crashes or hangs (e.g. a changed loop that no longer terminates) must not mask named obligations that already
+    # failed: then it is recorded and the verdict comes from the obligations; otherwise it is a checker error as before
+    proof_failed = any(i.label == "proved" and i.status in ("failed", "unknown") for i in items)
     if not a.no_bounded:
         budget = P.get("fuzz_budget", {"quick": 6, "thorough": 40})[tier]
         import concurrent.futures as cf
@@ -203,6 +206,9 @@ def run(pid, tier, seed, a, t0):
                 try:
                     r = fut.result()
                 except Exception as e:
+                    if proof_failed:
+                        print("NOTE bounded stand-in for %s crashed (%s); verdict taken from the failed obligations" % (c.key, str(e)[:200]))
+                        continue
                     print("CHECKER-ERROR bounded stand-in for %s crashed: %s" % (c.key, e))
                     return 3
                 iid = "bounded:%s" % c.key
@@ -216,10 +222,16 @@ def run(pid, tier, seed, a, t0):
                 try:
                     r = fut.result()
                 except Exception as e:
+                    if proof_failed:
+                        print("NOTE bounded stand-in %s crashed (%s); verdict taken from the failed obligations" % (name, str(e)[:200]))
+                        continue
                     traceback.print_exc()
                     print("CHECKER-ERROR bounded stand-in %s crashed: %s" % (name, e))
                     return 3
                 if r["status"] == "error":
+                    if proof_failed:
+                        print("NOTE bounded stand-in %s crashed; verdict taken from the failed obligations" % name)
+                        continue
                     print("CHECKER-ERROR bounded stand-in %s crashed:\n%s" % (name, r["error"]))
                     return 3
                 iid = "bounded-api:%s" % name
